@@ -8,8 +8,10 @@ from fractions import Fraction
 from ..core import frac
 
 ID = "C06"
-LEAN_MODULE = "CKT.Props.C06"
+LEAN_MODULE = "CKT.Props.C06Sem"
 THEOREMS = [
+    # the estimator on an exact outcome distribution is a signed sum over the classical bits of the Pauli-expectation semantics (C06Sem)
+    "CKT.C06Sem.signedSum_bitsDesc", "CKT.C06Sem.outcome_sign", "CKT.C06Sem.signedSum_perm", "CKT.C06Sem.estimator_is_signedSum",
     "CKT.C06.paritySign_eq_neg_one_pow",
     "CKT.C06.bitCount_eq_card_bits",
     "CKT.C06.paritySign_and_mask",
